@@ -955,13 +955,12 @@ impl Parsed {
             guessed_offset = tz.offset_from_utc_datetime(&dt).fix().local_minus_utc();
         }
 
-        // checks if the given `DateTime` has a consistent `Offset` with given `self.offset`.
+        // checks if the given `DateTime` has a consistent `Offset` with given `self.offset`, and
+        // with the offset in effect at `self.timestamp` (another offset means another instant).
         let check_offset = |dt: &DateTime<Tz>| {
-            if let Some(offset) = self.offset {
-                dt.offset().fix().local_minus_utc() == offset
-            } else {
-                true
-            }
+            let offset = dt.offset().fix().local_minus_utc();
+            self.offset.map_or(true, |given| given == offset)
+                && (self.timestamp.is_none() || offset == guessed_offset)
         };
 
         // `guessed_offset` should be correct when `self.timestamp` is given.
